@@ -407,7 +407,7 @@ def run_check(mod, prop, seed, args, t0):
 
     wall = time.time() - t0
     desc = mod.describe()
-    nontrivial = sorted(s for s in agg.states if not mod.is_trivial_state(s))
+    nontrivial = sorted((s for s in agg.states if not mod.is_trivial_state(s)), key=repr)
     cov = {
         "evaluations": int(agg.ops),
         "distinct_nontrivial": len(nontrivial),
